@@ -5,4 +5,5 @@ import "oxverif/harness/core"
 // Targets maps property ids to their correspondence targets.
 var Targets = map[string]core.Target{
 	"C11": C11{},
+	"C09": C09{},
 }
